@@ -24,8 +24,10 @@ import Sftp.Model.ErrCurrent
       <fs'>  the resulting tree in canonical form (entries sorted as text), `-` if empty
       <err>  client ops: ok | notexist | permission | failure | enotdir      (what the caller can observe)
              os ops:     ok | noent | exist | notdir | isdir | notempty | perm | other   (the errno class)
-      oom    appended when the path traverses a symbolic link in a non-final position, or (removeall with
-             raLstat = 0, os ops never) is a link to a directory: OUTSIDE the model, do not compare.
+      oom    appended when the path traverses a symbolic link in a non-final position; for mkdirall (client and
+             os) also when some hop of the link chain that Stat follows from the path (target of the link, target
+             of that target, …) traverses a link in a non-final position; for removeall with raLstat = 0 also
+             when the path is a link to a directory or its chain has such a hop: OUTSIDE the model, do not compare.
   The wire (os error → what the client sees) is the one of the generated tables G.errCfg / G.normCfg.
 
   Ops
@@ -64,17 +66,29 @@ def entersLink (fs : FS) (p : Path) : Bool :=
   | .entry (.link _), (.ok, .dir) => true
   | _, _ => false
 
+/-- some hop of the chain stat follows from `p` runs through a link in a non-final position -/
+def chainOom : Nat → FS → Path → Bool
+  | 0, _, _ => false
+  | fuel + 1, fs, p =>
+    match locate fs p with
+    | .blocked .errOther => true
+    | .entry (.link t) => chainOom fuel fs t
+    | _ => false
+
+def statOom (fs : FS) (p : Path) : Bool := chainOom (fs.length + 1) fs p
+
 def oomTag (b : Bool) : String := if b then " oom" else ""
 
 def clientOp (name : String) (cfg : CompositeCfg) (fs : FS) (p : Path) : Option ((FS × CErr) × Bool) :=
   if name = "remove" then some (removeC cfg W fs p, !inModel fs p)
-  else if name = "mkdirall" then some (mkdirAll cfg W fs p, !inModel fs p)
-  else if name = "removeall" then some (removeAll cfg W fs p, !inModel fs p || (!cfg.raLstat && entersLink fs p))
+  else if name = "mkdirall" then some (mkdirAll cfg W fs p, statOom fs p)
+  else if name = "removeall" then
+    some (removeAll cfg W fs p, !inModel fs p || (!cfg.raLstat && (entersLink fs p || statOom fs p)))
   else none
 
 def osOp (name : String) (fs : FS) (p : Path) : Option ((FS × Result) × Bool) :=
   if name = "remove" then some (osRemove fs p, !inModel fs p)
-  else if name = "mkdirall" then some (osMkdirAll fs p, !inModel fs p)
+  else if name = "mkdirall" then some (osMkdirAll fs p, statOom fs p)
   else if name = "removeall" then some (osRemoveAll fs p, !inModel fs p)
   else none
 
